@@ -28,7 +28,10 @@ def pick_docs(ctx, cases, out):
             continue
         n = len([t for t in o["in"] if t["k"] != "#Comment"])
         small = c["src"].startswith("gen") and 6 <= n <= max_tok and "\n" in c["text"].strip()
-        if small and len([d for d in docs if d["window"] == 0]) < want:
+        if c in multi[: ctx.pick(3, 15)] and c["src"].startswith("gen") and n <= 50 and c["text"] not in seen:
+            seen.add(c["text"])
+            docs.append({"case": c, "window": 0 if n <= max_tok else 6})
+        elif small and len([d for d in docs if d["window"] == 0]) < want:
             seen.add(c["text"])
             docs.append({"case": c, "window": 0})
         elif c["src"].startswith("probe/syntax-error"):
